@@ -69,6 +69,12 @@ CHECKS["C16"] = ("TLC explores DirectWriteImpl (caller, sender thread, reader ca
                  "5 C16", "Trusted: the scripted device (one acknowledgement per line, in order); a 20 ms window before each "
                  "acknowledgement; event order under one lock.")
 
+CHECKS["C18"] = ("TLC compares ReportsImpl (the regex-match loop with _reported_params, and the ok-branch order as a named "
+                 "deviation) with the contract's Extract/Update over all token sequences within the bound; report lines rendered "
+                 "from abstract tokens travel the real path (scripted serial port, printcore reader, writer callback) and TLC "
+                 "compares get_parameter() after every write() with the contract.",
+                 "5 C18", "Trusted: the driver's rendering of abstract tokens into report text; Reports.tla; the fake serial port.")
+
 NOT_YET = {}
 
 
